@@ -344,6 +344,16 @@ func (h *VConn) Written() []byte {
 	return append([]byte{}, h.out...)
 }
 
+// WrittenFrom returns what mangos wrote from offset off on (nil if less was written).
+func (h *VConn) WrittenFrom(off int) []byte {
+	h.mu.Lock()
+	defer h.mu.Unlock()
+	if off > len(h.out) {
+		return nil
+	}
+	return append([]byte{}, h.out[off:]...)
+}
+
 // BytesRead is the number of bytes mangos consumed.
 func (h *VConn) BytesRead() int {
 	h.mu.Lock()
